@@ -71,3 +71,7 @@ chk("C17", "E1", "exploration",
     "deterministic simulation: real RelayTransport::poll_recv fed through its real queue, waker-driven noq-like poller, exact expected-delivery oracle and lost-wake-up / busy-loop detection",
     "Seeded exploration of batches (contents 1..65535 bytes, any segment size incl. larger than the buffer and non-dividing) against receive buffers of 1200..94208 bytes and 1..8 slots, with a poller that re-polls only when its waker fired; oracle: the datagrams handed to QUIC are exactly those that fit, in arrival order, each once, never empty or zero-stride; when the poller is parked nothing deliverable remains queued; poll count bounded.",
     "The queue is fed by the harness instead of the ActiveRelayActor (same channel, same item type).")
+chk("C28", "E1", "exploration",
+    "deterministic simulation: report histories on a virtual clock (gaps around the five-minute window, several probe kinds per relay, latencies around the two-thirds threshold) against a reference model of the statement",
+    "Seeded exploration of 1..8-report histories through the real add_report_history_and_set_preferred_relay on the paused clock; per report the chosen relay must be one measured in that report, be best over the last five minutes, and may differ from the previous choice only if at most two thirds of the previous relay's lowest latency in the current report (ties and exact-threshold rounding accepted either way).",
+    "Reports are constructed by the harness (probes are not run).")
